@@ -216,6 +216,9 @@ def check_flag_persistence(model, rep, flag):
 
 
 def check(model, rep):
+    # hidden state Python keeps outside the objects (not modelled by the evaluator): reported before anything else is evaluated
+    from checks.solver_common import package_lints as _package_lints
+    _package_lints(model, rep, 'C13.hidden-state', ('/solver.py', '/powertrain.py', '/utils/relations.py'))
     from checks.solver_common import absorb_cmp
     absorb_cmp(model, rep, 'C13.dep.cmp', ('AngularSpeed', 'Torque'))
     rep.explain('C13 (structural clause only): the method deciding the solver\'s lock flag is found semantically (the writer '
